@@ -1,5 +1,10 @@
 // E2 harness for C05: runtime life-cycle histories on the live runtime, exact event log.
-// usage: e2_life <seed> <perturb_per_1024> <incarnations> <size> [style|-1 [threads|0 [policy|-1 [race_suspend]]]]
+// usage: e2_life <seed> <perturb_per_1024> <incarnations> <size> [style|-1 [threads|0 [policy|-1 [race_suspend [smode|-1]]]]]
+//   smode (follow-up C05h): phase in which pika::stop() is entered: 0 running (the original grammar), 1 SUSPENDED
+//   (finalize while running; suspend; stop without resume), 2 suspend; resume; stop, 3 suspend; suspend (no-op); stop
+//   while suspended, 4 directed probe: work queued while suspended, then stop() (documented non-return: "no progress
+//   will be made"; ends `end pending-stop` when the state-based stuck verdict finds exactly that state), 5 directed
+//   probe of the sleep/notify window of scheduler_base::suspend (finding C05-stop-suspended-lostwake), -1 PRNG (0-3).
 // One process = one case = 1..5 incarnations of the runtime, each with its own thread count and
 // scheduling policy, each running a history drawn from
 //   start cfg; (submit* | external_submit | wait | task_wait | suspend; [submit]; resume)*; finalize; stop
@@ -45,10 +50,12 @@ struct rng
     std::uint32_t below(std::uint32_t n) { return n ? std::uint32_t(next() % n) : 0; }
 };
 
+static bool g_probe_window = false;    // smode 5: the POINT between the store of `sleeping` and the wait is passed on
 static bool life_filter(char const* s)
 {
     switch (s[0])
     {
+    case 'e': return g_probe_window && std::strcmp(s, "el.pt.sleep") == 0;    // a POINT: never logged
     case 'g': return s[1] == 'a';                                              // gac.*
     case 't': return s[1] == 'a';                                              // task.*
     case 'p': return s[1] == 'h' || s[1] == 'u' || (s[1] == 'o' && s[2] == 'o');    // phase.* pu.* pool.*
@@ -329,6 +336,10 @@ static void watchdog()
 
 static std::uint64_t g_seed = 0;
 static int g_incs = 0, g_size = 0;
+static std::atomic<bool> g_expect_pending{false};
+static int g_main_tid = 0;
+static std::atomic<int> g_probe_seen_join{0};
+static long g_pending_first = 0, g_pending_entered = 0, g_pending_done = 0;
 
 static void finish(char const* status)
 {
@@ -337,7 +348,38 @@ static void finish(char const* status)
         for (;;) std::this_thread::sleep_for(std::chrono::seconds(1));
     }
     bool ok = std::string(status) == "ok" || std::string(status) == "overflow";
-    if (!ok)
+    // smode 4 (directed probe): stop() on a suspended runtime that holds queued work.  The unchanged tree does not
+    // return (thread_manager::wait polls the activity counter, every worker sleeps: "work can be scheduled on the
+    // runtime even when it is suspended, but no progress will be made").  The stuck verdict is the usual state-based
+    // one; it is the EXPECTED outcome only if main is inside stop(), the runtime is still `sleeping`, no body ran
+    // since the suspension and the queued tasks are all unfinished.
+    if (!ok && g_expect_pending.load() && std::string(status) == "hang" && std::strcmp(g_where, "pika::stop()") == 0)
+    {
+        auto* rt = pika::detail::get_runtime_ptr();
+        bool const sleeping = rt != nullptr && rt->get_state() == pika::runtime_state::sleeping;
+        bool const untouched = g_entered.load() == g_pending_entered && g_done.load() == g_pending_done;
+        long unfinished = 0;
+        for (long k = g_pending_first; k < g_ids.load(); ++k)
+            if ((*g_tasks)[k].finished.load() == 0) ++unfinished;
+        if (sleeping && untouched && unfinished == g_ids.load() - g_pending_first && unfinished > 0)
+        {
+            status = "pending-stop";
+            ok = true;
+        }
+    }
+    if (!ok && g_probe_window && std::strcmp(g_where, "pika::stop()") == 0)
+    {
+        // smode 5: its own signature, so that listing the finding can never hide a plain "stuck in stop()"
+        monitor("directed probe: every worker was held between its store of `sleeping` and the condition-variable wait "
+                "until stop() had sent all its notifications; stop() never returns (lost wake-up in stop_locked)");
+    }
+    else if (!ok && std::strncmp(status, "crash", 5) == 0)
+    {
+        // an exception escaped from a life-cycle call: not a hang - the message must not carry a "stuck in" signature
+        // (a listed liveness finding would otherwise hide it)
+        monitor(std::string("a life-cycle call threw (see the exception above); last call: ") + std::string(g_where));
+    }
+    else if (!ok)
     {
         long n = g_ids.load();
         int rep = 0;
@@ -406,6 +448,18 @@ static void do_wait_external()
     e2::note("x.wait.exit", nullptr, std::uint64_t(w), 0);
 }
 
+// pika::wait() from an OS thread other than main, concurrently with whatever main does next (C05h)
+static void do_wait_helper()
+{
+    long w = g_waits.fetch_add(1);
+    auto snap = snapshot_subdone();
+    e2::note("x.wait.enter", nullptr, std::uint64_t(w), 0);
+    pika::wait();
+    check_ledger(snap, -1, "wait() called from a second OS thread");
+    e2::note("x.wait.exit", nullptr, std::uint64_t(w), 0);
+    g_stage.fetch_add(1);
+}
+
 static void waiter_task(long id, std::uint64_t seed)
 {
     rng r{seed};
@@ -421,14 +475,50 @@ static void waiter_task(long id, std::uint64_t seed)
     g.tick();
 }
 
-static int g_force_th = 0, g_force_pol = -1, g_race_suspend = 0;
-static void run_incarnation(rng& r, int inc, int force_style)
+static int g_force_th = 0, g_force_pol = -1, g_race_suspend = 0, g_force_smode = -1;
+
+// pika::suspend() with the harness' observations; `again` = the runtime is already suspended (documented no-op)
+static void do_suspend(long& entered_before, long& done_before, bool again)
+{
+    e2::note(again ? "x.susp2.enter" : "x.susp.enter", nullptr);
+    {
+        blocking b("pika::suspend()");
+        pika::suspend();
+    }
+    if (!again)
+    {
+        entered_before = g_entered.load();
+        done_before = g_done.load();
+    }
+    e2::note(again ? "x.susp2.exit" : "x.susp.exit", nullptr);
+    if (pika::detail::get_runtime_ptr()->get_state() != pika::runtime_state::sleeping)
+        monitor("suspend() returned but the runtime state is not `sleeping`");
+}
+static void check_quiet(long entered_before, long done_before)
+{
+    if (g_entered.load() != entered_before || g_done.load() != done_before)
+        monitor("a task body executed while the runtime was suspended");
+}
+
+// `q`: PRNG stream of the follow-up grammar (C05h), separate from `r` so that the histories drawn by the original
+// grammar for a given seed are unchanged
+static void run_incarnation(rng& r, rng& q, int inc, int force_style)
 {
     int th = 1 + int(r.below(4)) + (r.below(6) == 0 ? 2 : 0);
     int pol = int(r.below(8));
     if (g_force_th > 0) th = g_force_th;
     if (g_force_pol >= 0) pol = g_force_pol;
-    int const style = force_style >= 0 ? force_style : int(r.below(4));
+    int style = force_style >= 0 ? force_style : int(r.below(4));
+    // phase in which stop() will be entered (see the usage comment)
+    static int const smode_table[] = {0, 0, 0, 1, 1, 1, 2, 3};
+    int smode = g_force_smode >= 0 ? g_force_smode : smode_table[q.below(8)];
+    if (g_race_suspend) smode = g_force_smode >= 0 ? g_force_smode : 0;    // the finding reproductions keep the original shutdown
+    // stop() entered before finalize (style 1) needs a running runtime: pika::finalize() refuses a suspended one
+    if (style == 1 && (smode == 1 || smode == 3 || smode >= 4))
+    {
+        if (force_style == 1 && g_force_smode < 0) smode = q.below(2) ? 2 : 0;
+        else style = 0;
+    }
     g_maxdepth = 1 + int(r.below(3));
     g_width = 1 + int(r.below(3));
     int const entry_ret = 1 + int(r.below(100));
@@ -476,6 +566,53 @@ static void run_incarnation(rng& r, int inc, int force_style)
     for (int i = 0; i < nops; ++i)
     {
         g_stage.fetch_add(1);
+        // follow-up grammar (C05h): API uses the original grammar never produced
+        switch (g_race_suspend ? 99u : q.below(12))
+        {
+        case 0:
+        {
+            // resume() of a running (possibly idle) runtime: documented no-op ("runtime is suspended or running")
+            e2::note("x.res0.enter", nullptr);
+            {
+                blocking b("pika::resume()");
+                pika::resume();
+            }
+            e2::note("x.res0.exit", nullptr);
+            if (pika::detail::get_runtime_ptr()->get_state() != pika::runtime_state::running)
+                monitor("resume() of a running runtime left the state != running");
+            break;
+        }
+        case 1:
+        {
+            // wait() from a second OS thread, concurrently with main's next operations
+            helpers.emplace_back([] { do_wait_helper(); });
+            break;
+        }
+        case 2:
+        {
+            // resume of an idle suspended runtime, entered twice (the second call is a no-op), then a wait
+            join_helpers();
+            long eb = 0, db = 0;
+            do_suspend(eb, db, false);
+            if (q.below(2)) do_suspend(eb, db, true);
+            if (q.below(2)) do_wait_external();    // idle and suspended: returns at once
+            check_quiet(eb, db);
+            e2::note("x.res.enter", nullptr);
+            {
+                blocking b("pika::resume()");
+                pika::resume();
+            }
+            e2::note("x.res.exit", nullptr);
+            if (q.below(2))
+            {
+                e2::note("x.res0.enter", nullptr);
+                pika::resume();
+                e2::note("x.res0.exit", nullptr);
+            }
+            break;
+        }
+        default: break;
+        }
         switch (r.below(8))
         {
         case 0:
@@ -619,15 +756,90 @@ static void run_incarnation(rng& r, int inc, int force_style)
             }));
             sub_done(id);
         }
+        else if (q.below(3) == 0)
+        {
+            // finalize from a non-pika thread other than the one that will call stop() (C05h)
+            std::thread f([] {
+                pika::finalize();
+                g_stage.fetch_add(1);
+            });
+            f.join();
+        }
         else { pika::finalize(); }
-        e2::note("x.stop.enter", nullptr);
+
+        // ---- follow-up C05h: the phase in which stop() is entered
+        bool stop_suspended = false;
+        long eb = 0, db = 0;
+        if (smode >= 1)
+        {
+            // finalize() has been called (or will be, by the finalizer task that suspend() waits for) while the
+            // runtime is running; now the main thread suspends it
+            if (smode == 5)
+            {
+                // directed probe: every worker is held between its store of `sleeping` and the condition-variable
+                // wait until the main thread has gone through all of stop()'s notifications
+                g_probe_window = true;
+                e2::g_on_point = [](char const* site, void const*, std::uint64_t, std::uint64_t) {
+                    if (std::strcmp(site, "el.pt.sleep") != 0) return;
+                    // released only from state: main is inside stop() and blocked in the kernel (join)
+                    for (;;)
+                    {
+                        if (g_blocking.load() && std::strcmp(g_where, "pika::stop()") == 0 && g_main_tid != 0)
+                        {
+                            auto ts = read_threads();
+                            auto it = ts.find(g_main_tid);
+                            if (it != ts.end() && it->second.state == 'S' && g_probe_seen_join.fetch_add(1) >= 3) break;
+                        }
+                        std::this_thread::sleep_for(std::chrono::milliseconds(5));
+                    }
+                    g_stage.fetch_add(1);
+                };
+            }
+            do_suspend(eb, db, false);
+            if (smode == 3) do_suspend(eb, db, true);    // suspend twice: the second call is a no-op
+            if (smode == 2)
+            {
+                int n = int(q.below(std::uint32_t(g_size)));
+                for (int k = 0; k < n; ++k) spawn(q.next(), 0, -1);    // queued while suspended, runs after resume
+                spin_us(100 + q.below(500));
+                check_quiet(eb, db);
+                e2::note("x.res.enter", nullptr);
+                {
+                    blocking b("pika::resume()");
+                    pika::resume();
+                }
+                e2::note("x.res.exit", nullptr);
+            }
+            else
+            {
+                stop_suspended = true;
+                if (smode == 4)
+                {
+                    // work queued while suspended and never resumed: stop() must not return before it ran
+                    g_pending_first = g_ids.load();
+                    int n = 1 + int(q.below(std::uint32_t(g_size)));
+                    for (int k = 0; k < n; ++k) spawn(q.next(), g_maxdepth, -1);
+                    g_pending_entered = g_entered.load();
+                    g_pending_done = g_done.load();
+                    g_expect_pending.store(true);
+                }
+                else if (q.below(3) == 0) do_wait_external();    // idle and suspended: returns at once
+                spin_us(100 + q.below(1000));
+                check_quiet(eb, db);
+            }
+        }
+        e2::note("x.stop.enter", nullptr, stop_suspended ? 1 : 0);
         {
             blocking b("pika::stop()");
             r_stop = pika::stop();
         }
+        if (stop_suspended && smode != 4) check_quiet(eb, db);    // drained before the suspension: nothing may have run
+        g_expect_pending.store(false);
+        e2::g_on_point = nullptr;
         auto snap = snapshot_subdone();
         check_ledger(snap, -1, "stop()");
         e2::note("x.stop.exit", nullptr, std::uint64_t(std::uint32_t(r_stop)), std::uint64_t(expected));
+        if (pika::detail::get_runtime_ptr() != nullptr) monitor("stop() returned but a runtime is still registered");
     }
     if (r_stop != expected)
         monitor("stop() returned " + std::to_string(r_stop) + " but the entry function returned " + std::to_string(expected));
@@ -645,6 +857,8 @@ int main(int argc, char** argv)
     if (argc > 6) g_force_th = std::atoi(argv[6]);
     if (argc > 7) g_force_pol = std::atoi(argv[7]);
     if (argc > 8) g_race_suspend = std::atoi(argv[8]);
+    if (argc > 9) g_force_smode = std::atoi(argv[9]);
+    g_main_tid = int(syscall(SYS_gettid));
     g_tasks = new std::vector<tinfo>(max_tasks);
     e2::g_filter = &life_filter;
     e2::install(g_seed, perturb);
@@ -653,9 +867,10 @@ int main(int argc, char** argv)
     wd.detach();
 
     rng r{g_seed * 7919 + 17};
+    rng q{g_seed * 104729 + 71};
     try
     {
-        for (int i = 0; i < g_incs; ++i) run_incarnation(r, i, force_style);
+        for (int i = 0; i < g_incs; ++i) run_incarnation(r, q, i, force_style);
     }
     catch (std::exception const& e)
     {
